@@ -19,12 +19,17 @@ Definition select (lo hi:bound) (l:list line) : list line :=
 Definition accepts (p:nat) (l:list line) (ts:N) (pay:list byte) : bool :=
   (length pay =? p) && (ts <? U64)%N &&
   match last_opt l with None => true | Some x => (fst x <? ts)%N end.
+(* the same on the newest-first representation *)
+Definition accepts_r (p:nat) (rl:list line) (ts:N) (pay:list byte) : bool :=
+  (length pay =? p) && (ts <? U64)%N &&
+  match rl with [] => true | x :: _ => (fst x <? ts)%N end.
 
 (* ---- buckets and means (C08, C10) ---- *)
 Fixpoint buckets_fuel (fuel B:nat) (l:list line) : list (list line) :=
   match fuel with
   | O => []
-  | S f => if length l <? B then [] else firstn B l :: buckets_fuel f B (skipn B l)
+  | S f => let g := firstn B l in
+           if length g <? B then [] else g :: buckets_fuel f B (skipn B l)
   end.
 Definition buckets (B:nat) (l:list line) : list (list line) :=
   match B with O => [] | _ => buckets_fuel (length l) B l end.
@@ -62,10 +67,12 @@ Definition uniform_means (p:nat) (n:N) (sel out:list line) : bool :=
 (* ---- abstract state ---- *)
 Record shandle := {
   sh_name : list byte; sh_p : nat; sh_hdr : list byte; sh_caches : list N; sh_cb : cbmode;
-  sh_lines : list line;
-  sh_region : list byte;       (* the data region (file content after the header) *)
+  sh_rlines : list line;       (* the accepted lines, newest first (appends are the common operation) *)
+  sh_rregion : list byte;      (* the data region (file content after the header), last byte first *)
   sh_full : option N           (* last full timestamp in the region *)
 }.
+Definition sh_lines (h:shandle) : list line := frev (sh_rlines h).
+Definition sh_region (h:shandle) : list byte := frev (sh_rregion h).
 Definition sfs := list (list byte * list byte).     (* expected content of every file *)
 Record sstate := { ss_fs : sfs; ss_h : option shandle;
                    ss_det : bool }.   (* false: the properties no longer determine the state (damage other than a torn tail) *)
